@@ -28,9 +28,11 @@ class TI:
 
 
 class LRO:
-    def __init__(self, tag: int, real: Optional[Callable[..., bytes]] = None):
-        """tag: first byte of the tokens handed out (so tokens of different oracles differ)."""
+    def __init__(self, tag: int, real: Optional[Callable[..., bytes]] = None, descending: bool = False):
+        """tag: first byte of the tokens handed out (so tokens of different oracles differ). descending: later inputs get
+        smaller tokens (the byte order of ids relative to creation order is arbitrary; code must not depend on it)."""
         self.tag = tag
+        self.descending = descending
         self.table: List[Tuple[Tuple[bytes, ...], bytes]] = []
         self.log: List[Tuple[Tuple[bytes, ...], bytes]] = []
 
@@ -43,7 +45,7 @@ class LRO:
                     all(a == b for a, b in zip(p, parts)):
                 self.log.append((parts, out))
                 return out
-        n = len(self.table)
+        n = len(self.table) if not self.descending else 0xFFFF - len(self.table)
         out = bytes([self.tag, 0xAA]) + n.to_bytes(2, "big") + bytes([0x5A]) * 28
         self.table.append((parts, out))
         self.log.append((parts, out))
